@@ -7,6 +7,10 @@ import FastorModel.Props.C03
 import FastorModel.Props.C05
 import FastorModel.Props.C06
 import FastorModel.Props.C14
+import FastorModel.Props.C04
+import FastorModel.Props.C16
+import FastorModel.Props.C19
+import FastorModel.Props.C20
 import FastorModel.Model.Inverse
 import FastorModel.Props.C17
 /-
@@ -885,5 +889,44 @@ theorem inverse_leaf_reads_in_operand (n : Nat) (hn : 1 ≤ n ∧ n ≤ 4) (s s'
       e12, e13, e14, e15]
 
 end InvLeaf
+
+
+/-! ## the `*_footprint` family for the models merged in round 3 (C04 views, C16 reductions, C19 index views, C20 layout) -/
+
+/-- **range views, every evaluator of the flat scalar route** (C04 model, all six view classes and ranks): when the slice
+    selects elements of the parent (`first_k + j_k*step_k < pdims_k` for the in-range multi-index `j`), the parent offset
+    `eval_s` reads is inside the parent tensor -/
+theorem views_read_footprint (v : Views.View) (hwf : v.WF) (j : List Nat) (hj : Views.InRange (Views.vdims v.axs) j)
+    (hsel : Views.InRange v.pdims (List.zipWith (fun (a : Views.Ax) i => a.first + i * a.step) v.axs j)) :
+    v.evalS (Views.rowMajor (Views.vdims v.axs) j) < Views.lprod v.pdims := by
+  rw [C04.read_correct v hwf j hj]
+  exact Views.rowMajor_lt hsel
+
+/-- … and the vector route reads, lane by lane, what the scalar route reads at `idx + l`: the gather routes touch exactly
+    the selected offsets -/
+theorem views_gather_footprint (v : Views.View) (hwf : v.WF) (V idx l : Nat) (hl : l < V) :
+    (v.evalV V idx)[l]? = some (v.evalS (idx + l)) := C04.evalV_lanes v hwf V idx l hl
+
+/-- **reductions** (C16 model: unroll ladder of vector stages + scalar tail, every width and admissible ladder): the
+    positions read are exactly `0 … n-1`; in particular every read is inside the operand -/
+theorem reduce_footprint (n V : Nat) (us : List Nat) (hn : n < 2 ^ 64) (hg : Reduce.GoodLadder V us) (p : Nat)
+    (hp : p ∈ Reduce.flat V (Reduce.vecSteps n V us) ++ Reduce.tailPos n V us) : p < n := by
+  rw [C16.positions_exactly_once n V us hn hg] at hp
+  exact List.mem_range.1 hp
+
+/-- **index-tensor views** (C19 model): the lanes gathered at `i` are `it (i+l)`; with in-range indices
+    (`it j < N` for `j < n`) and `i + V ≤ n` every gathered offset is inside the parent of `N` elements -/
+theorem random_view_footprint (it : Nat → Nat) (n N V i : Nat) (hin : ∀ j, j < n → it j < N) (hi : i + V ≤ n)
+    (x : Nat) (hx : x ∈ RandomViews.laneInds it V i) : x < N := by
+  unfold RandomViews.laneInds at hx
+  obtain ⟨j, hj, rfl⟩ := List.mem_map.1 hx
+  obtain ⟨t, rfl, hlt⟩ := (mem_forRange (by omega : 0 < 1)).1 hj
+  exact hin _ (by omega)
+
+/-- **layout converters** (C20 model): row-major and column-major offsets of a multi-index of the shape are inside the
+    `prod dims` elements of the tensor -/
+theorem layout_footprint (ds is : List Nat) (h : Layout.Box ds is) :
+    Layout.rowFlat ds is < Layout.prod ds ∧ Layout.colFlat ds is < Layout.prod ds :=
+  ⟨Layout.rowFlat_lt h, Layout.colFlat_lt h⟩
 
 end Fastor.C07
